@@ -18,7 +18,7 @@ structure Invariant (P : Prim) where
   call_ctor : ∀ w, Gen.WHITELIST.contains w = true → ∀ v,
     rResolve P (.ftype "") (splitDot w) = .ok v → good (.call v)
   getattr_ok : ∀ obj a, hasPrefix Gen.attrRefusedPrefix a = false → good (.getattr obj a)
-  fallback_ok : ∀ id, good (.fallback id)
+  fallback_ok : ∀ id, nameRefused id = false → good (.fallback id)
   modattr_ok : ∀ w, Gen.WHITELIST.contains w = true → ∀ part ∈ splitDot w, ∀ obj, good (.modattr obj part)
 
 variable {P : Prim}
@@ -265,7 +265,11 @@ theorem pres_evalStep {I : Invariant P} {self} (hs : SelfOK I self) (e : Expr) :
       simp only
       split
       · exact ⟨hst, fun _ _ => trivial⟩
-      · exact pres_bind (pres_log _ (I.fallback_ok id)) (fun _ _ => (pres_lift _).weaken (fun _ _ => trivial)) st hst
+      · split
+        · exact ⟨hst, fun _ _ => by simp⟩
+        · rename_i hnr
+          exact pres_bind (pres_log _ (I.fallback_ok id (by simpa using hnr)))
+            (fun _ _ => (pres_lift _).weaken (fun _ _ => trivial)) st hst
     | attr v a =>
       simp only
       split
